@@ -537,7 +537,7 @@ fn value_constants(run: &subj::VmRun) -> BTreeSet<W> {
 
 fn run_shard(ctx: &ShardCtx, acc: &mut Acc) {
     let tier = ctx.tier;
-    drive(ctx, "programs", tier.pick(1_200, 20_000), 900, acc, &|ch, acc| {
+    drive(ctx, "programs", tier.pick(25_000, 300_000), 900, acc, &|ch, acc| {
         let (class, code) = match ch.below(14) {
             0..=3 => ("storage-free", g_storage_free(ch, acc).code()),
             4..=8 => ("mixed", g_mixed(ch, acc).code()),
